@@ -152,8 +152,15 @@ func (s *Spec) SLRParsingTable() (*lr.ParsingTable, error) {
 
 // LALRParsingTable builds and returns the LALR(1) (Lookahead LR) parsing table
 // for the grammar and precedences in the spec.
-func (s *Spec) LALRParsingTable() (*lr.ParsingTable, error) {
-	T, err := lookahead.BuildParsingTable(s.Grammar, s.Precedences)
+func (s *Spec) LALRParsingTable() (T *lr.ParsingTable, err error) {
+	// The table builder panics for some grammars with useless rules (e.g., start = e; e = e o e; o = "+";).
+	defer func() {
+		if r := recover(); r != nil {
+			T, err = nil, fmt.Errorf("error on building LALR(1) parsing table:\n%v", r)
+		}
+	}()
+
+	T, err = lookahead.BuildParsingTable(s.Grammar, s.Precedences)
 	if err != nil {
 		return nil, fmt.Errorf("error on building LALR(1) parsing table:\n%s", err)
 	}
